@@ -99,7 +99,7 @@ class C19Spec(ModelSpec):
 
 def main(tier):
     rep = common.Report("C19", tier, "model_checking")
-    run_spec(rep, C19Spec(tier), "states-x-arguments", time_cap=300 if tier == "quick" else 3000)
+    run_spec(rep, C19Spec(tier), "states-x-arguments", time_cap=120 if tier == "quick" else 3000)
     rep.assumptions += ["starting states: closure of store/delete/tag/no-pid store/dii over pids p/q and contents A/B",
                         "differential: store_object(pid,data,checksum..) vs store_object(data); delete_if_invalid_object; "
                         "tag_object on two copies of each state, contents A/B/new C x 11 validation kinds"]
